@@ -95,7 +95,7 @@ PROPS = {
                U("c06_generic_multi_fresh", ["C06.V.solve_generic_multi.workspace_fresh"]),
                U("c06_threshold_player_step", ["C06.V.thread_threshold.frontier_reach", "C06.V.thread_threshold.frontier_reach_chance"]),
                U("c06_worker_task", ["C06.V.worker_task.own_entry (a worker evaluates ITS frontier entry -- own node, own reach values, shared tables, empty cache -- and files the payoff under that node's address)"]),
-               U("c06_threshold_loop", ["C06.V.thread_threshold.frontier_is_a_cut (the whole expansion loop: queue+work+passed terminals conserve every additive functional of the sequential traversal -- no subtree twice, none lost)"]),
+               U("c06_threshold_loop", ["C06.V.thread_threshold.frontier_is_a_cut (the whole expansion loop: every non-negative additive functional of the sequential traversal totals over queue+work to at most its root value -- own reach values, no subtree twice)"]),
                U("c06_recurse_multi_cache", ["C06.V.recurse_multi.cache_hit", "C06.V.recurse_multi.miss_traverses", "C06.V.cached_payoff.unit_is_empty"]),
                U("c08_recurse_single_player_arm", ["C08.V.recurse_single.player_arm (one visit of a decision node: the single-threaded statement)"]),
                U("c08_recurse_multi_player_arm", ["C08.V.recurse_multi.player_arm (the same visit as a sequence of atomic events)"]),
@@ -107,7 +107,7 @@ PROPS = {
         
         trusted_base=["assumed contract on rayon par_drain / par_extend (prelude/workspace.rs); the call-site stub of thread_threshold there carries only the PRECONDITION (empty queue and work) of the contract proved for the real loops in c06_threshold_loop / c07_external_threshold_loop and promises nothing"],
         not_decided=["races between worker tasks, atomic add ordering, equality up to summation order",
-                     "thread_threshold: termination and that the loop stops AT the target size (performance only); that the frontier it leaves is a cut of the traversal IS decided (C06.V.thread_threshold.frontier_is_a_cut)"],
+                     "thread_threshold: termination and that the loop stops AT the target size (performance only); that the frontier it leaves holds no part of the traversal twice and only with its own reach values IS decided (C06.V.thread_threshold.frontier_is_a_cut)"],
     ),
     "C07": dict(
         level="proof",
@@ -119,7 +119,7 @@ PROPS = {
         level_note="Schedules and the uniqueness of the visit behind try_lock().unwrap() are NOT decided.",
         verus=[U("c08_update_cum_strat", ["C08.V.update_cum_strat.external (the sampled player's average strategy is updated at every visit, also when its action was drawn while the frontier was built)"]),
                U("c06_threshold_player_step", ["C06.V.thread_threshold.frontier_reach", "C06.V.thread_threshold.frontier_reach_chance"]),
-               U("c06_threshold_loop", ["C06.V.thread_threshold.frontier_is_a_cut (chance-sampled parallel path: the frontier is a cut of the SAMPLED tree)"]),
+               U("c06_threshold_loop", ["C06.V.thread_threshold.frontier_is_a_cut (chance-sampled parallel path: frontier entries are nodes of the SAMPLED tree, none twice)"]),
                U("c07_external_fresh", ["C07.V.single_player_iter.workspace_fresh", "C07.V.solve_external_multi.workspace_fresh"]),
                U("c06_generic_multi_fresh", ["C06.V.solve_generic_multi.workspace_fresh"]),
                U("c05_into_avg_strat", ["C05.V.into_avg_strat.normalised (the multi-threaded extraction uses the same normalisation)"]),
@@ -129,7 +129,7 @@ PROPS = {
                U("c10_external_next", ["C10.V.external.chance_next (the draw made at the first visit is the one every later visit of the pass follows)", "C10.V.external.next_update"]),
                U("c07_external_next_nodes", ["C07.V.next_nodes.sampled_walk (the frontier walk follows exactly the sampled outcome / sampled action down to the pass's own player)", "C07.V.next_nodes.draws_kept (at most one sample per infoset per pass)"]),
                U("c06_worker_task", ["C07.V.worker_task.own_entry (external solver: same FIRST, updating player's table as the active one)", "C06.V.worker_task.own_entry (chance-sampled parallel path)"]),
-               U("c07_external_threshold_loop", ["C07.V.external_thread_threshold.frontier_is_a_cut (the whole frontier loop of the external-sampled parallel path: queue+work+reached terminals are a cut of the SAMPLED tree -- visited exactly once)", "C07.V.external_thread_threshold.draws_kept"]),
+               U("c07_external_threshold_loop", ["C07.V.external_thread_threshold.frontier_is_a_cut (the whole frontier loop of the external-sampled parallel path: queue+work hold nodes of the SAMPLED tree only, no part of it twice)", "C07.V.external_thread_threshold.draws_kept"]),
                U("c10_cached_infoset", ["C10.V.cached_infoset.cache_hit"]),
                U("c08_advance_order", ["C10.V.cached_infoset.advance_resets_draw"])],
         trusted_base=["assumed contract on rayon par_drain / par_extend (prelude/workspace.rs); the call-site stub of thread_threshold there carries only the PRECONDITION (empty queue and work) of the contract proved for the real loops in c06_threshold_loop / c07_external_threshold_loop and promises nothing"],
@@ -214,7 +214,7 @@ PROPS = {
         ],
         kani_functions=["src/solve/multinomial.rs :: impl Distribution<usize> for Multinomial / fn sample"],
         trusted_base=[FLOAT_IDEAL, "rand::Rng::gen, rand_distr::WeightedAliasIndex (assumed contracts)"],
-        not_decided=["statistical correctness of the alias sampler", "termination of external::thread_threshold's work-list loop (that the frontier it leaves is a cut of the sampled tree IS decided: C07.V.external_thread_threshold.frontier_is_a_cut)"],
+        not_decided=["statistical correctness of the alias sampler", "termination of external::thread_threshold's work-list loop (that the frontier it leaves holds only nodes of the sampled tree, none twice, IS decided: C07.V.external_thread_threshold.frontier_is_a_cut)"],
     ),
     "C11": dict(
         level="proof",
